@@ -137,6 +137,10 @@ func (d *uripostDecoder) readBlock(reader *bufio.Reader, commonHeader http.Heade
 
 	header := commonHeader.Clone()
 	for k, vv := range d.decodedConfigHeaders {
+		if _, ok := header[k]; ok {
+			// Headers in ammo file have priority.
+			continue
+		}
 		for _, v := range vv {
 			header.Set(k, v)
 		}
